@@ -383,6 +383,7 @@ public:
         dsched::Sched& s = dsched::S();
         if (s.serial()) {
             mutex* m = lock.mutex();
+            s.yield_point();              // a thread can be pre-empted between its predicate check and the wait
             m->release_serial();          // atomically: release the mutex and enter the wait set
             s.block('c', this);           // returns only after a notify made us runnable
             m->acquire_serial();
